@@ -78,8 +78,10 @@ Record trans := { training : bool; disc : bool; hard : bool;
                   gum : bool; nos : bool;      (* MPSBaseQtz.gumbel_softmax / disable_sampling (SuperNet: constructor argument of the block / never) *)
                   sn_temp : Q;
                   sn_thetas : list tnf;                         (* SuperNetCombiner.theta_alpha: not a buffer *)
-                  ranges : option (list (string * Z)) }.    (* MinMaxWeight.ch_min/ch_max, QuantizerBias._scale: plain attributes, uninitialised
+                  ranges : option (list (string * Z));      (* MinMaxWeight.ch_min/ch_max, QuantizerBias._scale: plain attributes, uninitialised
                        after construction, recomputed from the weights by every forward pass (of the wrapper and of the exported net) *)
+                  rg : list (nat * bool) }.                (* requires_grad of the parameters (tensor attribute, not in the state_dict): the log of
+                       train_net_only / train_nas_only / train_net_and_nas / train_features|rf|dilation := b / train_selection := b calls *)
 (* the method bound to sample_alpha: qtz.py update_softmax_options re-derives it from the two flags on every call *)
 Definition smp (t : trans) : skind := if nos t then NoSamp else if gum t then Gs else Sm.
 Record state := { meth : method; pe : pers; tr : trans }.
@@ -141,7 +143,7 @@ Definition fresh (c : cfg) : state :=
                                              s_theta := match c_meth c with MPS => soft_nf 1 (s_alpha s) | _ => s_theta s end |})
                                   (p_samplers (c_pers c)) |};
      tr := {| training := c_training c; disc := c_disc c; hard := c_hard c; gum := c_gum c; nos := c_nos c; sn_temp := c_temp c;
-              sn_thetas := map (fun s => map (fun _ => CInit) (s_alpha s)) (p_samplers (c_pers c)); ranges := None |} |}.
+              sn_thetas := map (fun s => map (fun _ => CInit) (s_alpha s)) (p_samplers (c_pers c)); ranges := None; rg := [] |} |}.
 
 (* ---------------------------------------------------------------- operations *)
 Inductive op :=
@@ -151,7 +153,8 @@ Inductive op :=
 | OSetDisc (b : bool)                                  (* PIT.discrete_cost = b *)
 | OUpdate (t : option Q) (h g d : option bool)         (* update_softmax_options(temperature, hard, gumbel, disable_sampling) *)
 | OTrain | OEval
-| OForward (noise : nat).
+| OForward (noise : nat)
+| OTrainSwitch (which : nat) (b : bool).     (* trainability switches of dnas.py / pit.py / supernet.py: write requires_grad only *)
 
 Fixpoint zip_with {A B C} (f : A -> B -> C) (keep : A -> C) (a : list A) (b : list B) : list C :=
   match a, b with
@@ -175,7 +178,7 @@ Definition with_tr (s : state) (t : trans) : state := {| meth := meth s; pe := p
 Definition with_pe (s : state) (p : pers) : state := {| meth := meth s; pe := p; tr := tr s |}.
 Definition set_mode (b : bool) (s : state) : state :=
   with_tr s {| training := b; disc := disc (tr s); hard := hard (tr s); gum := gum (tr s); nos := nos (tr s); sn_temp := sn_temp (tr s);
-               sn_thetas := sn_thetas (tr s); ranges := ranges (tr s) |}.
+               sn_thetas := sn_thetas (tr s); ranges := ranges (tr s); rg := rg (tr s) |}.
 
 Definition mps_resample (k : skind) (trn h : bool) (noise : nat) (q : sampler) : sampler :=
   set_theta q (if s_reach q then mps_sample k trn h (s_temp q) noise (s_alpha q) (s_theta q)
@@ -192,11 +195,11 @@ Definition forward (noise : nat) (s : state) : state :=
       {| meth := MPS;
          pe := {| p_bn := p_bn p; p_net := p_net p; p_masks := p_masks p; p_layers := p_layers p; p_samplers := ss |};
          tr := {| training := training t; disc := disc t; hard := hard t; gum := gum t; nos := nos t; sn_temp := sn_temp t;
-                  sn_thetas := sn_thetas t; ranges := Some (p_net p) |} |}
+                  sn_thetas := sn_thetas t; ranges := Some (p_net p); rg := rg t |} |}
   | SN =>
       with_tr s {| training := training t; disc := disc t; hard := hard t; gum := gum t; nos := nos t; sn_temp := sn_temp t;
                    sn_thetas := map (fun q => sn_sample (smp t) (training t) (hard t) (sn_temp t) noise (s_alpha q)) (p_samplers p);
-                   ranges := ranges t |}
+                   ranges := ranges t; rg := rg t |}
   end.
 
 Definition upd {A} (o : option A) (d : A) : A := match o with Some x => x | None => d end.
@@ -213,7 +216,7 @@ Definition step (s : state) (o : op) : state :=
   | OSetDisc b =>
       match meth s with
       | PIT => with_tr s {| training := training t; disc := b; hard := hard t; gum := gum t; nos := nos t; sn_temp := sn_temp t;
-                            sn_thetas := sn_thetas t; ranges := ranges t |}
+                            sn_thetas := sn_thetas t; ranges := ranges t; rg := rg t |}
       | _ => s
       end
   | OUpdate ot oh og od =>
@@ -225,14 +228,17 @@ Definition step (s : state) (o : op) : state :=
                       p_samplers := match ot with Some x => map (set_temp x) (p_samplers p) | None => p_samplers p end |};
              tr := {| training := training t; disc := disc t; hard := upd oh (hard t);
                       gum := upd og (gum t); nos := upd od (nos t);
-                      sn_temp := sn_temp t; sn_thetas := sn_thetas t; ranges := ranges t |} |}
+                      sn_temp := sn_temp t; sn_thetas := sn_thetas t; ranges := ranges t; rg := rg t |} |}
       | SN =>      (* supernet.py update_softmax_options(temperature, hard) *)
           with_tr s {| training := training t; disc := disc t; hard := upd oh (hard t); gum := gum t; nos := nos t;
-                       sn_temp := upd ot (sn_temp t); sn_thetas := sn_thetas t; ranges := ranges t |}
+                       sn_temp := upd ot (sn_temp t); sn_thetas := sn_thetas t; ranges := ranges t; rg := rg t |}
       end
   | OTrain => set_mode true s
   | OEval => set_mode false s
   | OForward n => forward n s
+  | OTrainSwitch w b =>
+      with_tr s {| training := training t; disc := disc t; hard := hard t; gum := gum t; nos := nos t; sn_temp := sn_temp t;
+                   sn_thetas := sn_thetas t; ranges := ranges t; rg := rg t ++ [(w, b)] |}
   end.
 Definition run (s : state) (ops : list op) : state := fold_left step ops s.
 
